@@ -610,7 +610,7 @@ def scale_specs(pid, rng, tier):
         add("xsingles_4440", [40000], False, swap=True)
         add("xsingles_70000", [200000] + big, False)
         add("ycard", [65536, 65537, 70000], False)
-        add("ycard", [70000, 131073], False, swap=True)
+        add("ycard", [70000], False, swap=True)          # (n <= 70 000 only: the swapped X is all-distinct, no repeated strata)
         add("sorted_const", [65537, 200000] + big, False)
         add("sorted_const", [200000] + big, False, swap=True)
         add("sorted_lowcard", [131073, 200000] + big, False)
@@ -706,7 +706,7 @@ def scale_family(run, pid, specs, small_cases, small_terms, clause):
     for c, r, ct, s_ in zip(specs, impl, exp, st):
         ok, info = compare_c(r, ct)
         run.count_case(["scale", c["gen"], c["flag"]], not s_["identical"] and s_["distinct_X"] > 1 and s_["distinct_Y"] > 1)
-        rows.append(dict(s_, fam=c["gen"]["fam"], swap=bool(c["gen"].get("swap")), flag=c["flag"], ok=ok))
+        rows.append(dict(s_, fam=c["gen"]["fam"], swap=bool(c["gen"].get("swap")), flag=c["flag"], ok=ok, impl_seconds=r.get("t")))
         if ok:
             worst = max(worst, info["ratio"])
             continue
